@@ -110,3 +110,45 @@ def step {V} (depth : Nat) (s : St V) : Ev V → St V
 def run {V} (depth : Nat) (es : List (Ev V)) : St V := es.foldl (step depth) {}
 
 end SFV.Gather
+
+namespace SFV.Gather
+
+/-! ### `ScatterStep.run` (and `ScatterStep.restore` with its `FilterTokenPort`) -/
+
+/-- what the scatter step takes from its input port / is told by the recovery machinery -/
+inductive SIn (V : Type) where
+  | list (tag : Tag) (xs : List V)       -- a `ListToken`
+  | other (tag : Tag)                    -- any other token: `_scatter` raises WorkflowDefinitionException
+  | term (st : Status)                   -- the port's `TerminationToken`
+  | restore (valid : List Tag)           -- `restore(on_tokens)`: the output port becomes a `FilterTokenPort` for these tags
+deriving Repr
+
+structure SSt (V : Type) where
+  elems : List (Tok V) := []             -- log of the element output port
+  sizes : List (Tag × Nat) := []         -- log of the `__size__` port
+  filter : Option (List Tag) := none     -- `valid_tags` of the FilterTokenPort installed by `restore`
+  terminated : Option Status := none     -- termination token put on both output ports
+  raised : Bool := false                 -- `run` ended with an exception (nothing is terminated)
+
+/-- `FilterTokenPort.put` for a data token -/
+def passes {V} (filter : Option (List Tag)) (t : Tok V) : Bool :=
+  match filter with
+  | none => true
+  | some valid => decide (t.tag ∈ valid)
+
+def sstep {V} (s : SSt V) : SIn V → SSt V
+  | .restore valid =>
+      -- the tokens already on the old port are re-put through the filter of the new one
+      { s with filter := some valid, elems := s.elems.filter (passes (some valid)) }
+  | e =>
+      if s.terminated.isSome || s.raised then s else
+      match e with
+      | .list tag xs =>
+          { s with elems := s.elems ++ ((scatter tag xs).1.filter (passes s.filter)), sizes := s.sizes ++ [(scatter tag xs).2] }
+      | .other _ => { s with raised := true }
+      | .term st => { s with terminated := some (getStatus st (s.elems.isEmpty || s.sizes.isEmpty)) }   -- status = token.value
+      | .restore _ => s
+
+def srun {V} (es : List (SIn V)) : SSt V := es.foldl sstep {}
+
+end SFV.Gather
